@@ -138,6 +138,13 @@ pub fn main(a: Args) -> i32 {
         dir: 1,
         del: false,
     });
+    // directed: push of a multi-chunk file over an old version of the same length
+    scenarios.push(Scenario {
+        src: vec![("f".to_string(), (0..300_000usize).map(|j| (j % 251) as u8).collect(), 1_500_000_000), ("outside-plan".to_string(), b"untouched".to_vec(), 1_300_000_000)],
+        dst: vec![("f".to_string(), (0..300_000usize).map(|j| (j % 241) as u8).collect(), 1_400_000_000), ("outside-plan".to_string(), b"untouched".to_vec(), 1_300_000_000)],
+        dir: 1,
+        del: false,
+    });
     for i in 0..nscen {
         let dir = (i % 3) as u64;
         let nfiles = 1 + r.below(3) as usize;
@@ -148,9 +155,12 @@ pub fn main(a: Args) -> i32 {
             let sz = if a.tier == "thorough" { *r.pick(&sizes) } else { *r.pick(&sizes[..4]) };
             let body: Vec<u8> = (0..sz).map(|j| (j % 251) as u8 ^ (k as u8)).collect();
             src.push((name.clone(), body.clone(), 1_500_000_000 + k as i64));
-            match r.below(3) {
+            match r.below(4) {
                 0 => {}
-                1 => dst.push((name, b"OLD-VERSION".to_vec(), 1_400_000_000)),
+                // an old version of the SAME length (other bytes, other mtime): only the bytes tell it from the new one once
+                // something has touched its mtime
+                3 if sz > 0 => { let b2: Vec<u8> = body.iter().map(|x| x ^ 0x5a).collect(); dst.push((name, b2, 1_400_000_000)); }
+                1 | 3 => dst.push((name, b"OLD-VERSION".to_vec(), 1_400_000_000)),
                 _ => { let mut b2 = body.clone(); b2.truncate(sz / 2); b2.extend(b"old"); dst.push((name, b2, 1_400_000_000)); }
             }
         }
